@@ -118,7 +118,26 @@ pub fn check(tape: &[u32], st: &mut Stats) -> Result<(), String> {
             st.sample(json!({"source": c.rendered.text, "violated": format!("{:?}", model.violations)}));
         }
     }
-    check_asm(&c.prog, &c.rendered.layout, &c.rendered.text, st)
+    // one source in twelve starts with a comment line of more than 64 KiB: every position that follows needs more than 16 bits
+    let mut text = c.rendered.text.clone();
+    let mut layout = c.rendered.layout.clone();
+    if tape.first().is_some_and(|x| (x >> 1) % 12 == 0) {
+        let pad = format!("; {}\n", "-".repeat(65_600 + (tape[0] as usize >> 8) % 3000));
+        let n = pad.len();
+        for l in layout.iter_mut() {
+            l.nucleus = l.nucleus.start + n..l.nucleus.end + n;
+            for x in l.labels.iter_mut() {
+                *x = x.start + n..x.end + n;
+            }
+            if let Some(o) = l.operand_label.as_mut() {
+                *o = o.start + n..o.end + n;
+            }
+            l.line += 1;
+        }
+        text = pad + &text;
+        st.class("source-longer-than-64KiB");
+    }
+    check_asm(&c.prog, &layout, &text, st)
 }
 
 pub fn describe(tape: &[u32]) -> Value {
@@ -143,7 +162,7 @@ pub fn run(ctx: &Ctx) -> Outcome {
     out.absorb(tape_search(ctx, "main", &cfg, check, describe));
     out.essential = [
         "asm-error:OverlappingLabels", "asm-error:UndetAddrLabel", "asm-error:CouldNotFindLabel", "asm-error:OffsetExternal", "asm-error:OffsetNewErr",
-        "asm-error:OverlappingBlocks", "asm-error:BlockInIO", "label-error-covered", "link-error:OverlappingBlocks", "link-error:OverlappingLabels", "source-without-final-newline", "asm-error:UnclosedOrig",
+        "asm-error:OverlappingBlocks", "asm-error:BlockInIO", "label-error-covered", "link-error:OverlappingBlocks", "link-error:OverlappingLabels", "source-without-final-newline", "source-longer-than-64KiB", "asm-error:UnclosedOrig",
     ]
     .iter()
     .map(|s| s.to_string())
